@@ -32,8 +32,8 @@ RULE = (
 TOLERANCES = {"everything": "bitwise / exact equality (OpenCV's RNG re-seeded before each colour-correction evaluation)"}
 ASSUMPTIONS = ["files are written to a per-run temporary directory that is removed afterwards", "lossless formats: PNG (8 bit) and TIFF (16 bit), as documented in OpticalImage.write"]
 FLOORS = {
-    "quick": {"npz_roundtrip": 250, "bytes_roundtrip": 150, "optical_write_read": 60, "correction_roundtrip": 150, "estimator_regions_compared": 100, "correction_path_reused": 200},
-    "thorough": {"npz_roundtrip": 3000, "bytes_roundtrip": 1800, "optical_write_read": 700, "correction_roundtrip": 1700, "estimator_regions_compared": 1000, "correction_path_reused": 2000},
+    "quick": {"npz_roundtrip": 250, "bytes_roundtrip": 150, "optical_write_read": 60, "correction_roundtrip": 150, "estimator_regions_compared": 100, "correction_path_reused": 200, "caller_config_edited_after_construction": 40, "curvature_crop_points_typed": 6},
+    "thorough": {"npz_roundtrip": 3000, "bytes_roundtrip": 1800, "optical_write_read": 700, "correction_roundtrip": 1700, "estimator_regions_compared": 1000, "correction_path_reused": 2000, "caller_config_edited_after_construction": 400, "curvature_crop_points_typed": 60},
 }
 SHARD_TIMEOUT = {"quick": 1500, "thorough": 7200}
 
@@ -292,6 +292,10 @@ def run_shard(spec, R):
                    "stretch": {"horizontal_stretch": float(rng.uniform(-2e-5, 2e-5)), "vertical_stretch": 0.0, "horizontal_center_offset": int(rng.integers(-2, 3)), "vertical_center_offset": 0}}
             if n % 2:
                 cfg["crop"] = {"pts_src": [[1, 1], [1, shape[0] - 2], [shape[1] - 2, shape[0] - 2], [shape[1] - 2, 1]], "width": shape[1] * 0.01, "height": shape[0] * 0.01}
+            if n % 2 and (spec["shard"] + n // 2) % 2 == 0:
+                # corner points as typed voxels (row, col), as the crop() workflow stores them
+                cfg["crop"]["pts_src"] = darsia.make_voxel([[1, 1], [shape[0] - 2, 1], [shape[0] - 2, shape[1] - 2], [1, shape[1] - 2]])
+                R.count("curvature_crop_points_typed")
             cur = darsia.CurvatureCorrection(config=cfg)
             x = rng.random(shape + (3,)).astype(np.float32)
             roundtrip("curvature_unused", cur, [x, darsia.OpticalImage(x.copy(), dimensions=[1.0, 1.0], color_space="RGB")], {"config": "bulge/stretch" + ("/crop" if n % 2 else "")})
@@ -314,8 +318,17 @@ def run_shard(spec, R):
             # colour
             arr, roi, ref = checker_photo(rng, darsia, (int(rng.integers(90, 130)), int(rng.integers(130, 180))), [np.uint8, np.float32][n % 2])
             for opts in ({"whitebalancing": True, "colorbalancing": "affine"}, {"whitebalancing": False, "colorbalancing": "linear", "clip": True}, {"active": False}):
-                ccfg = {"roi": roi, **opts}
+                ccfg = {"roi": [list(r_) for r_ in roi], **opts}
                 cc = darsia.ColorCorrection(base=darsia.CustomColorChecker(reference_colors=ref), config=ccfg)
+                # the caller goes on with its configuration dictionary and edits the region of interest in place (for
+                # the next camera); the correction built before is not affected, neither live nor saved
+                if isinstance(ccfg["roi"], np.ndarray):
+                    ccfg["roi"] += 7
+                else:
+                    for row_ in ccfg["roi"]:
+                        for j_ in range(len(row_)):
+                            row_[j_] = row_[j_] + 7
+                R.count("caller_config_edited_after_construction")
                 roundtrip("colour", cc, [arr, darsia.OpticalImage(arr.copy(), dimensions=[1.0, 1.0], color_space="RGB")], {"options": {k: str(v) for k, v in opts.items()}}, kmeans=True)
         if n < 1:
             R.sample({"corrections_roundtripped": ["type", "drift", "curvature", "illumination", "colour"], "photo_shape": list(shape)})
